@@ -53,7 +53,8 @@ Definition fixed_names : list string :=
    "exp"; "pow"; "sqrt"; "log"; "log10"; "fmin"; "fmax"; "fabs";
    "GetElementAbund"; "GetMantleDens"; "GetHNuclei"; "GetMu"; "GetGamma"; "GetNumDens"; "GetShieldingFactor";
    "GetH2shielding"; "GetCOshielding"; "GetN2shielding"; "GetGrainScattering"; "GetCharactWavelength";
-   "k"; "y"; "u_data"; "NREACTIONS"; "NEQUATIONS"; "NSPECIES"; "if"].    (* "if": the window guard around an assignment *)
+   "k"; "kh"; "kc"; "y"; "u_data"; "NREACTIONS"; "NEQUATIONS"; "NSPECIES"; "NHEATPROCS"; "NCOOLPROCS";
+   "if"].    (* k / kh / kc: the array parameter of EvalRates / EvalHeatingRates / EvalCoolingRates; "if": the window guard *)
 
 Definition subset (a b : list string) : bool := forallb (fun x => memb String.eqb x b) a.
 Fixpoint nodupb (l : list string) : bool :=
